@@ -20,7 +20,9 @@
 //     type; a pointer to a struct becomes `Option <structure>` and a field
 //     access through a nil pointer makes the result `none` (a panic);
 //   - statements: if / else, expression-less and tagged switch (no
-//     fallthrough), return (also naked), :=, =, op=, ++, --, var, assignments
+//     fallthrough), type switch over a symbolic interface value (see below),
+//     the statement panic(…) (`none`), return (also naked), :=, =, op=, ++, --, var, local const
+//     (folded at its uses), assignments
 //     to fields of the receiver or of local struct values; statements after a
 //     branching statement are duplicated into both branches;
 //   - expressions: literals, constants (folded with go/types, so imported
@@ -91,6 +93,21 @@
 //     are, in traced functions, opaque calls like any other (a parameter for
 //     the result and a trace entry with the format string) — the behaviour the
 //     ties of C08 (and others written before the texts became fixed) rely on;
+//     call or such a write; a field of abstract type of a translated structure
+//     and an element of an abstract slice are read in the same way;
+//   - the spec file may declare such a type *symbolic* (object form of the
+//     option, `true` being the token mode above; "symbolic":
+//     {"net/netip.Addr": "String", "…/filter.Result": "(Option String)"}): its
+//     values are then carried as values of the given Lean type — `String`: an
+//     injective rendering of the value, the zero value (`T{}`, `var x T`) is
+//     "", `==` is equality of renderings; `(Option String)` for an interface:
+//     `none` is nil, `some t` a value whose dynamic type prints as `t` —
+//     and methods called on them are opaque calls;
+//   - a keyed literal `T{f: v}` / `&T{f: v}` of a translated struct type is a
+//     structure instance (`some …` for `&`), omitted fields are zero; spec
+//     files with the object form of "symbolic" evaluate the given fields in the
+//     order of the literal and refuse calls in dropped fields, the others
+//     evaluate in the order of the structure's fields;
 //   - []error literals, append on them and errors.Join are lists of optional
 //     texts and "first non-nil" (errors.Join is non-nil iff an element is);
 //   - opaque calls and reads from abstract objects are not allowed inside
@@ -115,7 +132,11 @@
 //     (the handler closure a middleware's Wrap returns), with the enclosing
 //     receiver in scope; methods listed under "identity" return their receiver;
 //   - "recv_nonnil" models a pointer receiver as the struct itself (the
-//     assumption that callers never pass nil is stated where it is used).
+//     assumption that callers never pass nil is stated where it is used);
+//     "nonnil" does the same for the listed pointer parameters;
+//   - "trace_repr" records trace arguments of structure / option / list type
+//     as `reprStr <value>` instead of "_", and an argument `x.f` of abstract
+//     type, x of a translated struct type, as "field:f".
 //
 // Anything else is a translation error: the generated definition is replaced
 // by a marker that makes the Tie theorem fail, i.e. a broken obligation.
@@ -171,12 +192,21 @@ type TrFunc struct {
 	// Pure lists printed callee expressions whose calls are opaque *values*
 	// that are not recorded in the trace (getters such as t.UnixNano).
 	Pure []string `json:"pure,omitempty"`
+	// NonNil lists pointer-to-struct parameters modelled as the struct itself,
+	// like recv_nonnil for the receiver (callers never pass nil).
+	NonNil []string `json:"nonnil,omitempty"`
+	// TraceRepr renders trace arguments of non-scalar translatable type
+	// (structures, options, lists) with `reprStr` instead of "_".
+	TraceRepr bool `json:"trace_repr,omitempty"`
 }
 
 type trSpecFile struct {
 	Funcs []TrFunc `json:"funcs"`
-	// Symbolic turns values of abstract types into tokens (see the header).
-	Symbolic bool `json:"symbolic,omitempty"`
+	// Symbolic is either `true`: values of all abstract types become tokens
+	// (see the header), or an object that maps qualified type names
+	// ("net/netip.Addr") the subset cannot express to the Lean type that
+	// stands for their values.
+	Symbolic symbolicOpt `json:"symbolic,omitempty"`
 	// AbstractBytes makes byte slices abstract buffers (see the header).
 	AbstractBytes bool `json:"abstract_bytes,omitempty"`
 	// TraceErrors: in traced functions fmt.Errorf / errors.New are opaque
@@ -185,6 +215,20 @@ type trSpecFile struct {
 	// TraceNew: in traced functions `&T{…}` of abstract type is also the
 	// trace entry ("new T", ["K=" ++ value, …]).
 	TraceNew bool `json:"trace_new,omitempty"`
+}
+
+// symbolicOpt is the value of the file-level option "symbolic": a boolean
+// (all abstract types are tokens) or a map from type names to Lean types.
+type symbolicOpt struct {
+	All   bool
+	Types map[string]string
+}
+
+func (o *symbolicOpt) UnmarshalJSON(b []byte) error {
+	if err := json.Unmarshal(b, &o.All); err == nil {
+		return nil
+	}
+	return json.Unmarshal(b, &o.Types)
 }
 
 type loadedPkg struct {
@@ -303,6 +347,8 @@ type translator struct {
 	traceErrors bool
 	// traceNew: `&T{…}` of abstract type is also a ("new T", […]) trace entry.
 	traceNew bool
+	// symb: the types declared symbolic one by one ("symbolic": {type: Lean type}).
+	symb map[string]string
 }
 
 type funcOut struct {
@@ -342,6 +388,9 @@ func (t *translator) leanTypeC(ty types.Type) string {
 	case *types.Named:
 		if u.Obj().Pkg() == nil && u.Obj().Name() == "error" {
 			return "(Option String)"
+		}
+		if u.Obj().Pkg() != nil && t.symb[u.Obj().Pkg().Path()+"."+u.Obj().Name()] != "" {
+			return t.symb[u.Obj().Pkg().Path()+"."+u.Obj().Name()]
 		}
 		if st, ok := u.Underlying().(*types.Struct); ok {
 			return t.structType(u, st)
@@ -509,6 +558,7 @@ type fctx struct {
 	onEnd       func() string
 	opaqueNodes map[ast.Expr]string
 	opaqueCalls map[*ast.CallExpr]string
+	nonNil      map[types.Object]bool
 }
 
 type ex struct {
@@ -518,6 +568,9 @@ type ex struct {
 
 func (c *fctx) isRecvVal(e ast.Expr) bool {
 	id, ok := e.(*ast.Ident)
+	if ok && c.nonNil[c.p.info.Uses[id]] {
+		return true
+	}
 	return ok && c.recvVal && id.Name == c.recv
 }
 
@@ -786,6 +839,9 @@ func (c *fctx) expr(e ast.Expr) ex {
 			return c.bindN([]ex{c.expr(cl)}, func(s []string) string { return "(some " + s[0] + ")" })
 		}
 		a := c.expr(x.X)
+		if _, isLit := x.X.(*ast.CompositeLit); isLit && x.Op == token.AND && strings.HasPrefix(c.t.leanType(c.typeOf(x)), "(Option S_") {
+			return c.bindN([]ex{a}, func(s []string) string { return "(some " + s[0] + ")" })
+		}
 		switch x.Op {
 		case token.NOT:
 			return c.bindN([]ex{a}, func(s []string) string { return "(!" + s[0] + ")" })
@@ -812,9 +868,15 @@ func (c *fctx) expr(e ast.Expr) ex {
 		if n, ok := types.Unalias(c.typeOf(x)).(*types.Named); ok {
 			if st, ok := n.Underlying().(*types.Struct); ok {
 				if lt := c.t.structType(n, st); lt != "" {
+					if c.t.symb != nil {
+						return c.structLitOrdered(x, st)
+					}
 					return c.structLit(x, st, lt)
 				}
 			}
+		}
+		if n, ok := c.typeOf(x).(*types.Named); ok && len(x.Elts) == 0 && n.Obj().Pkg() != nil && c.t.symb[n.Obj().Pkg().Path()+"."+n.Obj().Name()] != "" {
+			return ex{code: c.zero(n)}
 		}
 	}
 	if ix, ok := e.(*ast.IndexExpr); ok {
@@ -906,6 +968,49 @@ func (c *fctx) structLit(x *ast.CompositeLit, st *types.Struct, lt string) ex {
 	})
 }
 
+// structLitOrdered is the variant of structLit used by spec files that declare
+// symbolic types one by one (C15): a keyed literal `T{f: v, …}` of a translated struct
+// type: the given fields are evaluated in the order of the literal, the other
+// fields are zero; elements of fields the structure does not have (abstract
+// types) must be call-free and are dropped.
+func (c *fctx) structLitOrdered(x *ast.CompositeLit, st *types.Struct) ex {
+	var xs []ex
+	var names []string
+	given := map[string]bool{}
+	for _, el := range x.Elts {
+		kv, ok := el.(*ast.KeyValueExpr)
+		if !ok {
+			fail("unkeyed struct literal %s", c.show(x))
+		}
+		ft := c.typeOf(kv.Value)
+		for i := 0; i < st.NumFields(); i++ {
+			if st.Field(i).Name() == kv.Key.(*ast.Ident).Name {
+				ft = st.Field(i).Type()
+			}
+		}
+		if c.t.leanType(ft) == "" {
+			if hasCall(kv.Value) {
+				fail("call in dropped field %s", c.show(kv))
+			}
+			continue
+		}
+		xs, names = append(xs, c.exprAs(kv.Value, ft)), append(names, kv.Key.(*ast.Ident).Name)
+		given[kv.Key.(*ast.Ident).Name] = true
+	}
+	return c.bindN(xs, func(s []string) string {
+		var parts []string
+		for i, n := range names {
+			parts = append(parts, leanIdent(n)+" := "+s[i])
+		}
+		for i := 0; i < st.NumFields(); i++ {
+			if f := st.Field(i); !given[f.Name()] && c.t.leanType(f.Type()) != "" {
+				parts = append(parts, leanIdent(f.Name())+" := "+c.zero(f.Type()))
+			}
+		}
+		return "({ " + strings.Join(parts, ", ") + " } : " + c.t.leanType(c.typeOf(x)) + ")"
+	})
+}
+
 // token is a fixed token of abstract type ty (symbolic mode).
 func (c *fctx) token(ty types.Type, name string) ex {
 	if c.t.leanType(ty) == "String" {
@@ -989,7 +1094,12 @@ func (c *fctx) opaqueValue(e ast.Expr) ex {
 		return ex{code: n}
 	}
 	c.nOpaque++
-	name := fmt.Sprintf("e%d_%s", c.nOpaque, sanitize(lastName(key)))
+	name := fmt.Sprintf("e%d_%s", c.nOpaque, strings.Map(func(r rune) rune {
+		if r == '_' || r >= '0' && r <= '9' || r >= 'a' && r <= 'z' || r >= 'A' && r <= 'Z' {
+			return r
+		}
+		return -1
+	}, strings.NewReplacer("==", "_is_", "!=", "_not_").Replace(sanitize(lastName(key)))))
 	c.opaque = append(c.opaque, fmt.Sprintf("(%s : %s)", name, lt))
 	c.opaqueVals[key] = name
 	c.opaqueNodes[e] = name
@@ -1088,7 +1198,7 @@ func (c *fctx) binary(x *ast.BinaryExpr) ex {
 			var r string
 			if isBool(tx) {
 				r = "(" + s[0] + " == " + s[1] + ")"
-			} else if isInt(tx) || isString(tx) || (c.t.symbolic && c.t.abstract(tx)) {
+			} else if isInt(tx) || isString(tx) || (c.t.symbolic && c.t.abstract(tx)) || c.t.leanType(tx) == "String" {
 				r = "(decide (" + s[0] + " = " + s[1] + "))"
 			} else {
 				fail("equality on %s", tx)
@@ -1437,12 +1547,20 @@ func (c *fctx) traceArg(a ast.Expr) (code string) {
 		}
 		return "(" + strings.Join(append(parts, "\"]\""), " ++ ") + ")"
 	}
+	if se, ok := a.(*ast.SelectorExpr); ok && lt == "" && c.spec.TraceRepr {
+		if sel := c.p.info.Selections[se]; sel != nil && sel.Kind() == types.FieldVal && c.t.leanType(c.typeOf(se.X)) != "" {
+			return fmt.Sprintf("%q", "field:"+se.Sel.Name) // abstract field of a translated structure: its name
+		}
+	}
 	render := "(toString %s)"
 	switch {
 	case lt == "String":
 		render = "%s"
 	case lt == "Int" || lt == "Bool":
 	case c.t.symbolic && (lt == "(Option String)" || lt == "(List Int)" || lt == "(List String)"):
+	case c.spec.TraceRepr && lt != "":
+		// "trace_repr": structures, options and lists are shown with reprStr
+		render = "(reprStr %s)"
 	case lt == "(Option String)":
 		// an error argument: only whether it is nil
 		render = "(if (%s).isSome then \"err\" else \"nil\")"
@@ -1918,6 +2036,8 @@ func (c *fctx) stmts(list []ast.Stmt) string {
 		return c.stmts(append(c.desugarSwitch(x), rest...))
 	case *ast.RangeStmt:
 		return c.rangeLoop(x, rest)
+	case *ast.TypeSwitchStmt:
+		return c.typeSwitch(x, rest)
 	case *ast.BranchStmt:
 		if c.loop != nil && x.Label == nil {
 			switch x.Tok {
@@ -1934,6 +2054,9 @@ func (c *fctx) stmts(list []ast.Stmt) string {
 		return c.stmts(rest)
 	case *ast.DeclStmt:
 		gd, ok := x.Decl.(*ast.GenDecl)
+		if ok && gd.Tok == token.CONST {
+			return c.stmts(rest) // local constants are folded where they are used
+		}
 		if !ok || gd.Tok != token.VAR {
 			fail("declaration %s", c.show(x))
 		}
@@ -1971,6 +2094,12 @@ func (c *fctx) stmts(list []ast.Stmt) string {
 		}
 		if c.matches(c.spec.Ignore, call) {
 			return c.stmts(rest)
+		}
+		if id, ok := call.Fun.(*ast.Ident); ok && id.Name == "panic" {
+			if _, isB := c.p.info.Uses[id].(*types.Builtin); isB {
+				c.partial = true
+				return "none"
+			}
 		}
 		if !c.trace {
 			fail("call statement %s (not ignored, no trace)", c.show(x))
@@ -2017,6 +2146,62 @@ func (c *fctx) stmts(list []ast.Stmt) string {
 	}
 	fail("statement %s (%T)", c.show(s), s)
 	return ""
+}
+
+// typeSwitch translates `switch [v :=] x.(type)` over a symbolic interface
+// value (Option String: none = nil, some t = dynamic type t): an if-chain in
+// clause order, `case nil` is `x.isNone`, `case T` is `x == some "<T>"` with T
+// printed with package names; the default clause comes last.
+func (c *fctx) typeSwitch(x *ast.TypeSwitchStmt, rest []ast.Stmt) string {
+	var ta *ast.TypeAssertExpr
+	switch a := x.Assign.(type) {
+	case *ast.ExprStmt:
+		ta, _ = a.X.(*ast.TypeAssertExpr)
+	case *ast.AssignStmt:
+		ta, _ = a.Rhs[0].(*ast.TypeAssertExpr)
+	}
+	if x.Init != nil || ta == nil || c.t.leanType(c.typeOf(ta.X)) != "(Option String)" {
+		fail("type switch %s", c.show(x.Assign))
+	}
+	subj := c.expr(ta.X)
+	if subj.partial || strings.Contains(subj.code, "«call:") {
+		fail("type switch on a partial expression %s", c.show(ta.X))
+	}
+	out, deflt := "", rest
+	closing := 0
+	for _, cl := range x.Body.List {
+		cc := cl.(*ast.CaseClause)
+		ast.Inspect(cc, func(n ast.Node) bool {
+			if b, ok := n.(*ast.BranchStmt); ok {
+				fail("branch statement %s in type switch", b.Tok)
+			}
+			return true
+		})
+		if cc.List == nil {
+			deflt = append(append([]ast.Stmt{}, cc.Body...), rest...)
+			continue
+		}
+		var conds []string
+		for _, e := range cc.List {
+			if id, ok := e.(*ast.Ident); ok && id.Name == "nil" {
+				conds = append(conds, "("+subj.code+").isNone")
+			} else {
+				conds = append(conds, fmt.Sprintf("(%s == some %q)", subj.code, types.TypeString(c.typeOf(e), func(p *types.Package) string { return p.Name() })))
+			}
+		}
+		out += fmt.Sprintf("if (%s) then\n%s\nelse (\n", strings.Join(conds, " || "), indent(c.stmts(append(append([]ast.Stmt{}, cc.Body...), rest...))))
+		closing++
+	}
+	return out + indent(c.stmts(deflt)) + strings.Repeat(")", closing)
+}
+
+func hasCall(e ast.Expr) (found bool) {
+	ast.Inspect(e, func(n ast.Node) bool {
+		_, isCall := n.(*ast.CallExpr)
+		found = found || isCall
+		return !found
+	})
+	return found
 }
 
 func proj(code string, i, n int) string {
@@ -2441,6 +2626,14 @@ func (t *translator) translate(sp TrFunc) (fo *funcOut) {
 	for i := 0; i < sig.Params().Len(); i++ {
 		v := sig.Params().At(i)
 		lt := t.leanType(v.Type())
+		for _, n := range sp.NonNil {
+			if pt, ok := v.Type().(*types.Pointer); ok && n == v.Name() && lt != "" {
+				if c.nonNil == nil {
+					c.nonNil = map[types.Object]bool{}
+				}
+				c.nonNil[v], lt = true, t.leanType(pt.Elem())
+			}
+		}
 		if lt == "" {
 			if nilCompared[v.Name()] && t.valType(v.Type()) == "AbsPtr" {
 				params = append(params, fmt.Sprintf("(%s : AbsPtr)", leanIdent(v.Name())))
@@ -2578,7 +2771,7 @@ func runTranslator(specDir, outDir, harness, modfile string) error {
 	sort.Strings(props)
 	for _, prop := range props {
 		sf := specs[prop]
-		t := &translator{l: l, structs: map[string]*structDef{}, funcs: map[string]*funcOut{}, byDecl: map[string]TrFunc{}, symbolic: sf.Symbolic, absBytes: sf.AbstractBytes, traceErrors: sf.TraceErrors, traceNew: sf.TraceNew}
+		t := &translator{l: l, structs: map[string]*structDef{}, funcs: map[string]*funcOut{}, byDecl: map[string]TrFunc{}, symbolic: sf.Symbolic.All, symb: sf.Symbolic.Types, absBytes: sf.AbstractBytes, traceErrors: sf.TraceErrors, traceNew: sf.TraceNew}
 		for _, f := range sf.Funcs {
 			t.byDecl[repoModule+f.Pkg+"."+f.Func] = f
 		}
